@@ -1,0 +1,59 @@
+//go:build verif
+
+// Contracts for govc (/verif): C24, part 4: the deferral paths of a self announcement (kernel/cosi.go: prepareAnnouncement).
+// Comment-only file.
+
+package kernel
+
+// ───────────── helpers of prepareAnnouncement: ASSUMED frames (graph / round state is the subject of C18-C20, not of C24) ─────────────
+// What C24 needs from them is only that they leave alone: the snapshot s of the action, the node's store pointer, the cache queue, the two CoSi
+// maps and the aggregators. Their effects on round/graph state (chain.State, the copies cache/final, the store's round records) are summarised
+// as the ghost location kernel_graph_state, which no C24 clause reads.
+//@ assume func checkNodeAccept
+//@   -- slices.Collect(maps.Values(..)) + ContainsFunc: iterator functions, out of the verified subset; read-only (its panic is a consistency assertion)
+//@   modifies nothing
+//@ assume func (chain *Chain) StateCopy
+//@   requires chain != nil
+//@   modifies nothing
+//@   -- CacheRound.Copy / FinalRound.Copy: new objects, a new RoundLink and a new snapshot slice (append to an empty literal)
+//@   ensures result0 != nil && fresh(result0) && result1 != nil && fresh(result1)
+//@   ensures result0.References != nil && fresh(result0.References) && fresh(result0.Snapshots)
+//@   ensures forall i int :: 0 <= i && i < len(result0.Snapshots) ==> result0.Snapshots[i] != nil
+//@ assume func (node *Node) CheckBroadcastedToPeers
+//@   modifies nothing
+//@ assume func (recv storage.Store) ReadRound(hash)
+//@   -- a round that is referenced by the head round exists: a successful read returns it
+//@   modifies nothing
+//@   ensures err == nil ==> result0 != nil
+//@ assume func (chain *Chain) determineBestRound
+//@   modifies nothing
+//@ assume func (chain *Chain) updateEmptyHeadRoundAndPersist
+//@   modifies cache.References, ghost kernel_graph_state
+//@ assume func (chain *Chain) startNewRoundAndPersist
+//@   modifies ghost kernel_graph_state
+//@   ensures err == nil && result1 != nil ==> result0 != nil && fresh(result0) && fresh(result1)
+//@   ensures err == nil && result1 != nil ==> (forall i int :: 0 <= i && i < len(result0.Snapshots) ==> result0.Snapshots[i] != nil)
+
+// ───────────── prepareAnnouncement ─────────────
+// A self announcement (CosiActionSelfEmpty) carries transactions that popAndProcessCacheQueue already took OUT of the cache queue
+// (CacheRetrieveTransactions deletes the queue entries it returns). prepareAnnouncement decides whether the proposal can be announced now;
+// (false, nil) means "deferred": no aggregator is installed, so nothing would ever requeue these transactions later. C24 for this function:
+//   [deferred-requeues]  every (false, nil) return has given every still-eligible transaction of the snapshot back to the cache queue.
+// (false, err) is handled by the caller chain (cosiHook: shouldRequeueSelfAnnouncement) and (true, nil) hands the transactions to the
+// aggregator that cosiSendAnnouncement installs; neither is claimed here.
+// Explicit panics ("should never be here", final.Number+1 != cache.Number) are graph-consistency assertions: `maypanic`.
+//@ func (chain *Chain) prepareAnnouncement
+//@   property C24
+//@   trustpre Gap asFinal IsPledging -- RoundOK / representation of the round copies belong to C19, Pledging to C10
+//@   requires CosiChainOK(chain) && AggsShape(chain) && !isnil(chain.persistStore)
+//@   requires m != nil && m.Snapshot != nil && m.data != nil
+//@   maypanic
+//@   modifies chain.CosiAggregators, chain.CosiVerifiers, m.Snapshot.RoundNumber, m.Snapshot.References, ghost bytes_cachequeue, ghost store_errors, ghost kernel_graph_state
+//@   ensures [deferred-requeues] !result0 && err == nil && StoreErrors(chain.node.persistStore) == old(StoreErrors(chain.node.persistStore)) ==>
+//@       TxsRequeued(chain.node.persistStore, old(m.Snapshot))
+//@   -- the two CoSi maps are either the same objects as before (contents untouched) or the new, empty maps of a round reset
+//@   ensures [maps] chain.CosiAggregators != nil && chain.CosiVerifiers != nil &&
+//@       (chain.CosiAggregators == old(chain.CosiAggregators) || (fresh(chain.CosiAggregators) && (forall k crypto.Hash :: {has(chain.CosiAggregators, k)} !has(chain.CosiAggregators, k)))) &&
+//@       (chain.CosiVerifiers == old(chain.CosiVerifiers) || (fresh(chain.CosiVerifiers) && (forall k crypto.Hash :: {has(chain.CosiVerifiers, k)} !has(chain.CosiVerifiers, k))))
+//@   ensures [errors-grow] StoreErrors(chain.node.persistStore) >= old(StoreErrors(chain.node.persistStore))
+//@   ensures [monotone] forall id mathint :: {QueuedId(chain.node.persistStore, id)} QueuedId(chain.node.persistStore, id) != old(QueuedId(chain.node.persistStore, id)) ==> QueuedId(chain.node.persistStore, id) == 1
